@@ -141,14 +141,19 @@ impl Cfg {
             .visual_metric(self.vis_metric)
             .positional_metric(self.metric)
             .positional_min_confidence(self.min_conf)
-            .visual_minimal_track_length(self.min_track_len)
             .visual_minimal_area(self.min_area)
             .visual_minimal_quality_use(self.q_use)
             .visual_minimal_quality_collect(self.q_collect)
-            .visual_max_observations(self.max_obs)
             .visual_min_votes(self.min_votes)
             .kalman_position_weight(self.pos_w)
             .kalman_velocity_weight(self.vel_w);
+        // the options are a record: the order in which they are set carries no meaning.  Runs with an even shard count set the
+        // gallery size before the minimal track length, the others the other way round.
+        o = if self.shards % 2 == 0 {
+            o.visual_max_observations(self.max_obs).visual_minimal_track_length(self.min_track_len)
+        } else {
+            o.visual_minimal_track_length(self.min_track_len).visual_max_observations(self.max_obs)
+        };
         if self.own_use > 0.0 {
             o = o.visual_minimal_own_area_percentage_use(self.own_use);
         }
